@@ -121,7 +121,8 @@ def _mask_respecting(ev):
 
 def hard_constraints(P, trace):
     out = []
-    B = P.params["budget"]
+    # the budget of the *instance* (a generator may hand out per-instance budgets below the nominal one)
+    B = float(trace[0].S["remaining_budget"]) if P.cfg.get("gen") == "varbudget" else P.params["budget"]
     tol = _tol(P)
     sh = P.shadow
     if "n_seen" not in sh:
